@@ -15,9 +15,9 @@ Proof.
 Qed.
 
 (* ---- addressing ---- *)
-Lemma get_addresses x p i t : good x = true -> atoi p = Some i -> elem_at (abs x) i = Some t ->
-  si_get_to x [p] = Ret (Some (mkref (rep_of x) i)) None /\ deref x (mkref (rep_of x) i) = Some t.
-Proof. intros G Hp E. rewrite (get_char x p i G Hp), E, deref_mkref. auto. Qed.
+Lemma get_addresses w x p i t : good x = true -> atoi p = Some i -> elem_at (abs x) i = Some t ->
+  si_get_to w x [p] = Ret (Some (mkref (rep_of x) i)) None /\ deref x (mkref (rep_of x) i) = Some t.
+Proof. intros G Hp E. rewrite (get_char w x p i G Hp), E, deref_mkref. auto. Qed.
 
 Lemma compare_addresses w x p i t : good x = true -> atoi p = Some i -> elem_at (abs x) i = Some t ->
   forall c r, si_compare w x (op_of c) r [p] = Ret (Some (native_cmp c t r)) None.
@@ -28,17 +28,17 @@ Proof.
     apply andb_true_iff in E. destruct E as (_ & B). apply Z.ltb_lt in B. exact B.
 Qed.
 
-Lemma length_addresses x p i t : good x = true -> atoi p = Some i -> elem_at (abs x) i = Some t ->
-  si_length x [p] = Ret (Wrote (Z.of_nat (List.length t))) None.
-Proof. intros G Hp E. rewrite (length_char x p i G Hp). unfold length_at. rewrite E. reflexivity. Qed.
+Lemma length_addresses w x p i t : good x = true -> atoi p = Some i -> elem_at (abs x) i = Some t ->
+  si_length w x [p] = Ret (Wrote (Z.of_nat (List.length t))) None.
+Proof. intros G Hp E. rewrite (length_char w x p i G Hp). unfold length_at. rewrite E. reflexivity. Qed.
 
-Lemma capacity_addresses x p i t : good x = true -> atoi p = Some i -> elem_at (abs x) i = Some t ->
+Lemma capacity_addresses w x p i t : good x = true -> atoi p = Some i -> elem_at (abs x) i = Some t ->
   match rep_of x with
-  | PP => exists e, znth (elems_of x) i = Some e /\ e_data e = t /\ si_capacity x [p] = Ret (Wrote (e_cap e)) None
-  | SS => si_capacity x [p] = Ret NotWritten None
+  | PP => exists e, znth (elems_of x) i = Some e /\ e_data e = t /\ si_capacity w x [p] = Ret (Wrote (e_cap e)) None
+  | SS => si_capacity w x [p] = Ret NotWritten None
   end.
 Proof.
-  intros G Hp E. rewrite (capacity_char x p i G Hp). unfold abs in E. rewrite elem_at_abs in E.
+  intros G Hp E. rewrite (capacity_char w x p i G Hp). unfold abs in E. rewrite elem_at_abs in E.
   destruct (rep_of x); [reflexivity|].
   destruct (znth (elems_of x) i) as [e|]; [|discriminate]. cbn in E. inversion E. eauto.
 Qed.
@@ -81,7 +81,7 @@ Qed.
 Lemma compare_out w x o r p i : good x = true -> atoi p = Some i -> elem_at (abs x) i = None ->
   v_cmp_guard w = true \/ i < 0 -> si_compare w x o r [p] = Ret None None.
 Proof.
-  intros G Hp E Hw. unfold si_compare. rewrite (sp_good _ G), Hp.
+  intros G Hp E Hw. unfold si_compare. rewrite (sp_good w _ G), Hp.
   apply elem_at_none_range in E. unfold abs in E. rewrite in_range_abs in E.
   set (l := elems_of x) in *.
   destruct (Z.ltb_spec i 0) as [N|N]; [destruct (rep_of x); reflexivity|].
@@ -90,20 +90,20 @@ Proof.
   destruct (rep_of x); cbv beta iota; rewrite ?g2_nil, (g2_out l i E), Hw; reflexivity.
 Qed.
 
-Lemma out_of_range_noop x p i : good x = true -> atoi p = Some i -> elem_at (abs x) i = None ->
-  si_get_to x [p] = Ret None None /\
+Lemma out_of_range_noop w x p i : good x = true -> atoi p = Some i -> elem_at (abs x) i = None ->
+  si_get_to w x [p] = Ret None None /\
   (forall o r, si_compare fixed x o r [p] = Ret None None) /\
-  si_length x [p] = Ret NotWritten None /\
-  si_capacity x [p] = Ret NotWritten None /\
-  (forall w v nid, si_set_with_buffer w x v [p] nid = Ret (x, nid) None).
+  si_length w x [p] = Ret NotWritten None /\
+  si_capacity w x [p] = Ret NotWritten None /\
+  (forall w' v nid, si_set_with_buffer w' x v [p] nid = Ret (x, nid) None).
 Proof.
   intros G Hp E. split; [|split; [|split; [|split]]].
-  - rewrite (get_char x p i G Hp), E. reflexivity.
+  - rewrite (get_char w x p i G Hp), E. reflexivity.
   - intros o r. apply (compare_out fixed x o r p i G Hp E). left; reflexivity.
-  - rewrite (length_char x p i G Hp). unfold length_at. rewrite E. reflexivity.
-  - rewrite (capacity_char x p i G Hp). unfold abs in E. rewrite elem_at_abs in E.
+  - rewrite (length_char w x p i G Hp). unfold length_at. rewrite E. reflexivity.
+  - rewrite (capacity_char w x p i G Hp). unfold abs in E. rewrite elem_at_abs in E.
     destruct (rep_of x); [reflexivity|]. destruct (znth (elems_of x) i); [discriminate|reflexivity].
-  - intros w v nid. apply (set_out_of_range w x v p i nid G Hp). apply elem_at_none_range. exact E.
+  - intros w' v nid. apply (set_out_of_range w' x v p i nid G Hp). apply elem_at_none_range. exact E.
 Qed.
 
 Lemma refuted_compare_out_of_range :
@@ -114,12 +114,12 @@ Proof.
   repeat split; vm_compute; reflexivity.
 Qed.
 
-Lemma unparsable_noop x p : good x = true -> atoi p = None ->
-  si_get_to x [p] = Ret None (Some EAtoi) /\
-  (forall w o r, si_compare w x o r [p] = Ret None (Some EAtoi)) /\
-  si_length x [p] = Ret NotWritten (Some EAtoi) /\
-  si_capacity x [p] = Ret NotWritten (Some EAtoi) /\
-  (forall w v nid, si_set_with_buffer w x v [p] nid = Ret (x, nid) (Some EAtoi)).
+Lemma unparsable_noop w x p : good x = true -> atoi p = None ->
+  si_get_to w x [p] = Ret None (Some EAtoi) /\
+  (forall o r, si_compare w x o r [p] = Ret None (Some EAtoi)) /\
+  si_length w x [p] = Ret NotWritten (Some EAtoi) /\
+  si_capacity w x [p] = Ret NotWritten (Some EAtoi) /\
+  (forall v nid, si_set_with_buffer w x v [p] nid = Ret (x, nid) (Some EAtoi)).
 Proof.
   intros G Hp. split; [|split; [|split; [|split]]].
   - apply get_unparsable; assumption.
@@ -130,16 +130,16 @@ Proof.
 Qed.
 
 (* ---- Loop ---- *)
-Lemma loop_char_it x it : good x = true ->
-  si_loop x it [] = Ret (loop_from (mkref (rep_of x)) it 0 (List.length (elems_of x))) None.
+Lemma loop_char_it w x it : good x = true ->
+  si_loop w x it [] = Ret (loop_from (mkref (rep_of x)) it 0 (List.length (elems_of x))) None.
 Proof.
-  intros G. unfold si_loop. rewrite (sp_good _ G).
+  intros G. unfold si_loop. rewrite (sp_good w _ G).
   destruct (rep_of x); cbv beta iota; change (0 <? zlen (@nil elem)) with false; cbv iota;
     destruct (elems_of x) as [|e l]; reflexivity.
 Qed.
 
-Lemma loop_order_keys x : good x = true ->
-  exists vs, si_loop x it_all [] = Ret vs None /\
+Lemma loop_order_keys w x : good x = true ->
+  exists vs, si_loop w x it_all [] = Ret vs None /\
     map (visit_text x) vs = loop_all (abs x) /\
     List.length vs = List.length (abs x) /\
     forall k, (k < List.length (abs x))%nat ->
@@ -152,13 +152,13 @@ Proof.
   intros k Hk. rewrite loop_from_nth by lia. reflexivity.
 Qed.
 
-Lemma loop_break x want b : good x = true -> (b < List.length (abs x))%nat ->
-  si_loop x {| it_want := want; it_ctl := fun k => if Nat.eqb k b then CtlBrk else CtlCnt |} [] =
+Lemma loop_break w x want b : good x = true -> (b < List.length (abs x))%nat ->
+  si_loop w x {| it_want := want; it_ctl := fun k => if Nat.eqb k b then CtlBrk else CtlCnt |} [] =
   Ret (firstn (S b) (loop_from (mkref (rep_of x)) {| it_want := want; it_ctl := fun _ => CtlNone |} 0 (List.length (abs x)))) None.
 Proof.
   intros G Hb.
   assert (L : List.length (abs x) = List.length (elems_of x)) by (unfold abs, abs_elems; apply map_length).
-  rewrite (loop_char_it _ _ G), L.
+  rewrite (loop_char_it w _ _ G), L.
   rewrite <- (loop_from_break (mkref (rep_of x)) want (List.length (elems_of x)) 0 b) by lia. reflexivity.
 Qed.
 
@@ -178,9 +178,9 @@ Proof.
 Qed.
 
 (* ---- CopyTo / Copy ---- *)
-Lemma copyto_appends_fresh src d nid : good src = true ->
+Lemma copyto_appends_fresh w src d nid : good src = true ->
   exists d' cs,
-    si_copy_to src (APtr d) nid = Ret (APtr d', nid + zlen (elems_of src)) None /\
+    si_copy_to w src (APtr d) nid = Ret (APtr d', nid + zlen (elems_of src)) None /\
     q_elems d' = q_elems d ++ cs /\ q_rep d' = q_rep d /\
     abs_elems cs = abs src /\
     (forall c, In c cs -> nid <= e_id c < nid + zlen (elems_of src)) /\
@@ -197,16 +197,16 @@ Proof.
   intros Hb c e Hc He. apply copies_ids in Hc. specialize (Hb e He). lia.
 Qed.
 
-Lemma copy_equal x nid : good x = true ->
-  exists d, si_copy x nid = Ret (d, nid + zlen (elems_of x)) None /\ q_rep d = SS /\ abs_elems (q_elems d) = abs x.
+Lemma copy_equal w x nid : good x = true ->
+  exists d, si_copy w x nid = Ret (d, nid + zlen (elems_of x)) None /\ q_rep d = SS /\ abs_elems (q_elems d) = abs x.
 Proof.
   intros G. eexists. split; [apply copy_char; exact G|]. split; [apply rep_append_all|].
   rewrite abs_append_all. cbn [nil_sq q_elems abs_elems map app]. unfold abs, abs_elems. apply copies_data.
 Qed.
 
 (* ---- Reset ---- *)
-Lemma reset_truncates s :
-  exists s', si_reset (APtr s) = Ret (APtr s') None /\ q_elems s' = [] /\
+Lemma reset_truncates w s :
+  exists s', si_reset w (APtr s) = Ret (APtr s') None /\ q_elems s' = [] /\
              q_rep s' = q_rep s /\ q_cap s' = q_cap s /\ q_nil s' = q_nil s.
 Proof. eexists. split; [apply reset_ptr|]. repeat split; reflexivity. Qed.
 
@@ -244,24 +244,24 @@ Lemma deq_iff_nonempty w x y : good x = true -> good y = true -> abs x <> [] \/ 
 Proof. intros Gx Gy H. exact (deq_iff w x y Gx Gy (or_intror H)). Qed.
 
 (* ---- a foreign dynamic type: no effect, false, or "unsupported type" ---- *)
-Lemma foreign_refused :
-  (forall p, si_get_to AForeign p = Ret None None) /\
-  (forall w v p nid, si_set_with_buffer w AForeign v p nid = Ret (AForeign, nid) None) /\
-  (forall w o r p, si_compare w AForeign o r p = Ret None None) /\
-  (forall it p, si_loop AForeign it p = Ret [] None) /\
-  (forall p, si_length AForeign p = Ret NotWritten None) /\
-  (forall p, si_capacity AForeign p = Ret NotWritten None) /\
-  (forall w y, si_deep_equal w AForeign y = Ret false None) /\
-  (forall w x, good x = true -> si_deep_equal w x AForeign = Ret false None) /\
-  (forall d nid, si_copy_to AForeign d nid = Ret (d, nid) (Some EUnsupported)) /\
-  (forall x nid, good x = true -> si_copy_to x AForeign nid = Ret (AForeign, nid) (Some EUnsupported)) /\
-  si_reset AForeign = Ret AForeign None.
+Lemma foreign_refused w :
+  (forall p, si_get_to w AForeign p = Ret None None) /\
+  (forall v p nid, si_set_with_buffer w AForeign v p nid = Ret (AForeign, nid) None) /\
+  (forall o r p, si_compare w AForeign o r p = Ret None None) /\
+  (forall it p, si_loop w AForeign it p = Ret [] None) /\
+  (forall p, si_length w AForeign p = Ret NotWritten None) /\
+  (forall p, si_capacity w AForeign p = Ret NotWritten None) /\
+  (forall y, si_deep_equal w AForeign y = Ret false None) /\
+  (forall x, good x = true -> si_deep_equal w x AForeign = Ret false None) /\
+  (forall d nid, si_copy_to w AForeign d nid = Ret (d, nid) (Some EUnsupported)) /\
+  (forall x nid, good x = true -> si_copy_to w x AForeign nid = Ret (AForeign, nid) (Some EUnsupported)) /\
+  si_reset w AForeign = Ret AForeign None.
 Proof.
   repeat split; intros; try reflexivity.
   - destruct p as [|? [|? ?]]; reflexivity.
   - destruct p as [|? [|? ?]]; reflexivity.
   - destruct p as [|? [|? ?]]; reflexivity.
   - destruct p; reflexivity.
-  - unfold si_deep_equal. rewrite (sp_good _ H). destruct (rep_of x); reflexivity.
-  - unfold si_copy_to. rewrite (sp_good _ H). destruct (rep_of x); reflexivity.
+  - unfold si_deep_equal. rewrite (sp_good w _ H). destruct (rep_of x); reflexivity.
+  - unfold si_copy_to. rewrite (sp_good w _ H). destruct (rep_of x); reflexivity.
 Qed.
